@@ -290,7 +290,8 @@ def scenario_q(mode='pass'):
 
     wt = threading.Thread(target=watcher, name='watcher')
 
-    @h.measures(h.Measurement('m'), h.Measurement('m2'), h.Measurement('m3'))
+    @h.measures(h.Measurement('m'), h.Measurement('m2'), h.Measurement('m3'),
+                h.Measurement('mt').with_transform(lambda x: x * 1000.0))
     def p1(test):
       wt.start()
       attached.wait()
@@ -300,6 +301,10 @@ def scenario_q(mode='pass'):
       time.sleep(0.01)                  # (the watcher starts its next snapshot here ...)
       test.measurements.m3 = 3          # ... and this one may arrive while that snapshot is being taken
       time.sleep(0.5)                   # then the phase is busy for a while: nothing else would wake a watcher
+      test.measurements.mt = 0.001      # recorded (after the transform) as 1.0
+      time.sleep(0.3)
+      test.measurements.mt = 1.0        # an override whose raw value equals the recorded one: now 1000.0 is recorded
+      time.sleep(0.5)
 
     def p2(test):
       if mode == 'stop':
@@ -350,6 +355,94 @@ def check_q(mode):
                   'the state changed from %r to %r after the snapshot was taken but the event handed out with it was never set' % (seen, now), rep))
     return out
   return check
+
+
+# ---- harness V: a real Test whose phase prompts through the stock UserInput plug while a station watcher snapshots the state ----
+def scenario_v():
+  htf.init()
+  import openhtf as h  # pylint: disable=g-import-not-at-top
+  from openhtf.plugs import user_input  # pylint: disable=g-import-not-at-top
+
+  def fn(sched):
+    res = {'snaps': 0, 'watcher_done': False, 'prompt_seen': False}
+    attached = threading.Event()
+    holder = {}
+
+    def watcher():
+      st = holder['test'].state
+      while True:
+        try:
+          snap, ev = st.asdict_with_event()
+        except Exception as e:  # pylint: disable=broad-except
+          import traceback  # pylint: disable=g-import-not-at-top
+          res.setdefault('snapshot_errors', []).append('%s: %s @ %s' % (type(e).__name__, str(e)[:80], ' < '.join(
+              '%s:%d' % (f.name, f.lineno) for f in reversed(traceback.extract_tb(e.__traceback__)[-4:]))))
+          # (PlugManager.as_base_types iterates the live plug table: "dictionary changed size during iteration" while
+          # plugs are being torn down is an acknowledged race -- openhtf's own station server retries on it, so does this watcher)
+          if len(res['snapshot_errors']) > 20 or res.get('execute_returned'):
+            res['watcher_done'] = len(res['snapshot_errors']) <= 20
+            return
+          time.sleep(0.01)
+          continue
+        res['snaps'] += 1
+        plugs = snap.get('plugs', {}).get('plug_states', {})
+        if any(v and v.get('message') == 'go?' for v in plugs.values() if isinstance(v, dict)):
+          res['prompt_seen'] = True
+        attached.set()
+        while not ev.wait(0.05):
+          if res.get('execute_returned'):
+            res['watcher_done'] = True
+            return
+
+    wt = threading.Thread(target=watcher, name='watcher')
+
+    @h.plugs.plug(prompts=user_input.UserInput)
+    def ask(test, prompts):
+      wt.start()
+      attached.wait()
+      test.logger.info('about to ask')     # (an update: the watcher is about to take its next snapshot)
+      pid = prompts.start_prompt('go?', text_input=True)     # (logs "Displaying prompt" while it holds the plug's lock)
+      time.sleep(0.1)
+      prompts.respond(pid, 'yes')
+      res['answer'] = prompts.wait_for_prompt(1.0)
+
+    test = h.Test(ask)
+    holder['test'] = test
+    res['ok'] = test.execute()
+    res['execute_returned'] = True
+    wt.join()
+    return res
+
+  return fn
+
+
+def execute_v(choices):
+  htf.init()
+  from openhtf import util  # pylint: disable=g-import-not-at-top
+  from openhtf.plugs import user_input  # pylint: disable=g-import-not-at-top
+  sched, value = explore.run_under_scheduler(
+      scenario_v(), choices, focus_targets=state_focus() + [user_input.UserInput],
+      focus_files=('openhtf/util/__init__.py', 'openhtf/plugs/user_input.py'), max_steps=60000)
+  result = {'value': value if isinstance(value, dict) else repr(value), 'failure': repr(sched.failure) if sched.failure else None}
+  if isinstance(value, dict):
+    result['outcome_key'] = (value.get('snaps'), value.get('ok'), value.get('answer'), value.get('prompt_seen'))
+  else:
+    result['outcome_key'] = ('failure', repr(sched.failure or value)[:100])
+  return explore.Exec(list(choices), sched.points, result, sched.failure, sched.steps, len(sched.trace), sched.state_hashes)
+
+
+def check_v(ex):
+  rep = {'part': 'V', 'choices': ex.choices}
+  v = ex.result['value']
+  if ex.failure is not None or not isinstance(v, dict):
+    return [('V:%s' % (type(ex.failure).__name__ if ex.failure else 'harness-exception'),
+             'a phase prompting through UserInput while a watcher snapshots the test state: %s / %s' % (ex.failure, v), rep)]
+  out = []
+  if v.get('answer') != 'yes' or v.get('ok') is not True:
+    out.append(('V:prompt-result', 'the prompt was answered "yes" but the phase got %r (execute() -> %r)' % (v.get('answer'), v.get('ok')), rep))
+  if not v.get('watcher_done'):
+    out.append(('V:watcher-stuck', 'the watcher never got past its last snapshot', rep))
+  return out
 
 
 # ---- harness U: a frontend-aware plug (UserInput) driven through operation sequences, two watchers --------------------
@@ -607,6 +700,12 @@ def run(tier):
     su += r['steps']
   rep.add_part('U UserInput plug, operation sequences, two watchers', states=max(1, nu), transitions=su, traces_validated_against_impl=eu,
                sequences=nu, exhaustive=True, samples=[{'ops': U_OPS, 'depth': 3 if tier == 'quick' else 4}])
+  bound_v = 1 if tier == 'quick' else 2
+  r = explore.explore('V', execute_v, check_v, bound_v, cap=300000 if tier == 'thorough' else 40000)
+  rep.merge_violations(r['violations'])
+  rep.add_part('V phase prompting through UserInput while a watcher snapshots the state', states=max(1, r['states']), transitions=r['steps'],
+               traces_validated_against_impl=r['executions'], deviation_bound=bound_v, distinct_outcomes=len(r['outcomes']),
+               exhaustive=not r['capped'], decision_points_default=r['default_points'], samples=r['samples'] or [{'choices': []}])
   bound_s = 2 if tier == 'quick' else 3
   for mode in ('abort', 'stop', 'timeout', 'raise', 'normal'):
     r = explore.explore('S:' + mode, lambda ch, mode=mode: execute_s(mode, ch), check_r('S-' + mode), bound_s,
@@ -641,6 +740,9 @@ def replay(art):
   elif r['part'] == 'Q':
     ex = execute_q(r['mode'], r['choices'])
     bad = check_q(r['mode'])(ex)
+  elif r['part'] == 'V':
+    ex = execute_v(r['choices'])
+    bad = check_v(ex)
   else:
     ex = execute_r(r.get('mode', 'pass'), r['choices'])
     bad = check_r(r.get('mode', 'pass'))(ex)
